@@ -738,8 +738,10 @@ def linearize(form, fields, trials=None):
     for I in integrals:
 
         g1 = I.expr.subs(zip(fields, new_fields))
-        # directional (Gateaux) derivative: d/d(eps) at eps = 0
-        dg_du = g1.diff(eps).subs(eps, 0)
+        # directional (Gateaux) derivative: d/d(eps) at eps = 0; the perturbed integrand is expanded first so
+        # that the operators distribute over the sums u + eps*du in their arguments and pull eps out
+        # (laplace((u + eps*du)**2) is not rewritten otherwise and eps stays inside the operator)
+        dg_du = expand(g1).diff(eps).subs(eps, 0)
 
         if dg_du:
             new_I = integral(I.domain, dg_du)
